@@ -81,6 +81,11 @@ def _bound(ctx, S, what, node):
               None if not names else {"unbound": names}, nontrivial=False)
 
 
+def _is_full(x):
+    u = app(x, "slice") if x is not None and not isinstance(x, (str, tuple)) else None
+    return u is not None and all(sym_of(p) == "None" for p in u[1])
+
+
 def _digitized(x):
     """an index of the accumulation read as  np.digitize(...)[k] + off  wherever the offset is applied (to the whole vector, to the element,
     or to both): (digitize application, off, [k], (the idx atom, x - atom)); (None, ...) when x is not of that form"""
@@ -248,12 +253,17 @@ def r5_binify_guards(ctx):
                 pos_a, kw_a = call_args(dg)
                 a = place(pos_a, kw_a, ["x", "bins", "right"])
                 _, cix = peel(a.get("x"))
-                col = const_of(cix[-1]) if cix else None
+                col = const_of(cix[1]) if len(cix) == 2 and _is_full(cix[0]) else None          # cycles[:, col] - a column, not the row cycles[col]
                 got.append((col, sym_of(a.get("bins")), a.get("right"), k[0]))
             if bad:
                 break
             loops = cell[4]["loops"]
             if bad:
+                break
+            if len(loops) != 1 or is_unknown(loops[0][1]):
+                # not one counted loop whose index selects the cycle (a while loop, a nested loop, ...): a shape this rule does not read
+                bad = f"the accumulation is not inside one loop over the cycles indexed by the loop variable: loops {[l[0] for l in loops]}, indices {[short(g[3], 40) for g in got]}"
+                shape = False
                 break
             ok = len(got) == 2 and got[0][0] == 1 and got[1][0] == 0 and all(same(g[2], Sb0.E(pb[3])) for g in got) \
                 and got[0][1] in pb[1:3] and got[1][1] in pb[1:3] and got[0][1] != got[1][1] \
@@ -721,6 +731,16 @@ def _fde(ctx, absacce, plain=True):
         raise AnchorError("fdepsd: one return of SimpleNamespace(...)")
     for k, v in ns[0][2].items():
         out[k] = v
+    # an output that still carries an undecided alternative (a test this rule's regime facts do not decide - e.g. the response type tested in a
+    # way that is not a comparison with a literal) cannot be compared with anything: not lowered, never a verdict
+    for k in ("psd", "peakamp", "di_sig", "di_test", "var_test", "bincount", "count", "binamps", "srs"):
+        v = S.deref(out.get(k))
+        if v is None or is_unknown(v):
+            continue
+        for nm, a, x in apps(v, "ite") + apps(v, "opaque-test"):
+            cond = a[0] if a and not isinstance(a[0], str) else None
+            if plain or cond is None or depends(cond, "resp"):
+                raise Unsupported(f"fdepsd: output `{k}` depends on a test the regime ({'absacce' if absacce else 'pvelo'}, serial) does not decide: {short(cond if cond is not None else x, 160)}")
     return S, out, fn
 
 
@@ -880,6 +900,7 @@ def _columns(v, cols):
             return None
         av = F.Rat(F.Poly.atom(mono[0][0]))
         b, ix = peel(av)
+        two = len(ix) == 2
         if len(ix) == 2:
             s0, s1 = app(ix[0], "slice"), app(ix[1], "slice")
             if s0 is None:
@@ -891,8 +912,11 @@ def _columns(v, cols):
             ix = ix[1:]
         if len(ix) != 1:
             return None
+        if not two and app(ix[0], "slice") is not None and not _is_full(ix[0]):
+            # one index on the (frequency x bin) array selects rows; X[a:b, :] is written X[a:b] by the evaluator
+            raise _Mismatch(f"{short(av)} slices the frequencies (rows), not the bins (columns)")
         sl = app(ix[0], "slice")
-        if sl is None and const_of(ix[0]) is not None and const_of(ix[0]).denominator == 1 and -n <= const_of(ix[0]) < n:
+        if sl is None and two and const_of(ix[0]) is not None and const_of(ix[0]).denominator == 1 and -n <= const_of(ix[0]) < n:
             k0 = int(const_of(ix[0])) % n
             sl = ("slice", [F.const(k0), F.const(k0 + 1), NONE])          # X[:, k] as the one-column block X[:, k:k+1]
         if sl is None:
@@ -1042,6 +1066,17 @@ def _levels_shape(S, LV):
     return False
 
 
+def _local_callables(S, v):
+    """names of calls in v whose callee is a local variable of the analysed function (functools.partial objects, callables picked from a
+    table, ...): the evaluator has no definition to follow"""
+    out = []
+    for nm, _, _ in apps(v, "call:"):
+        q = nm[5:]
+        if q.isidentifier() and q in S.ev.locals_ and q not in out:
+            out.append(q)
+    return out
+
+
 # ======================================================================================================================= R1
 def r1_exponents(ctx):
     fn = None
@@ -1069,13 +1104,21 @@ def r1_exponents(ctx):
                 if el is not None and sym_of(BA) is not None and Z is not None:
                     want = E(f"(A[_i0] ** {b}) * Z[_i0]", A=BA, Z=Z)
                 ok = el is not None and same(el, want)
-                exps.append(ok)
                 if el is None or want is None:
+                    exps.append(None)
                     ctx.error(f"fdepsd: damage indicator Df{b} = sum(amplitude^{b} * non-cumulative count)", fn, "the column is not filled element by element from binamps / bincount")
                     continue
+                loc = _local_callables(S, el)
+                if not ok and loc:
+                    exps.append(None)
+                    ctx.error(f"fdepsd: damage indicator Df{b} = sum(amplitude^{b} * non-cumulative count)", cell[3] if cell else fn,
+                              {"the element is computed by a local callable this rule cannot follow": loc, "element": short(el)})
+                    continue
+                exps.append(ok)
                 ctx.check(ok, f"fdepsd: damage indicator Df{b} = sum(amplitude^{b} * non-cumulative count)", cell[3] if cell else fn,
                           None if ok else {"element": short(el), "expected": f"binamps[j]**{b} . bincount[j]"})
-            ctx.check(all(exps), "fdepsd: fatigue exponents b4, b8, b12 are 4, 8, 12", fn)
+            if None not in exps:
+                ctx.check(all(exps), "fdepsd: fatigue exponents b4, b8, b12 are 4, 8, 12", fn)
         if not (psd and peak and dis and dit and vt) or any(x not in psd or x not in peak for x in gl) or any(x not in dis or x not in dit or x not in vt for x in bl):
             ctx.error(f"fdepsd [{label}]: output tables", fn)
             continue
